@@ -607,6 +607,10 @@ func runPF1(c *Ctx, rr *core.RuleResult, scope map[*core.Func]bool, fatal map[*c
 				}
 				continue
 			}
+			if s.kind == "SLC" && c.gateReslice(f, s.node) {
+				rr.OK(f, key, s.node.Pos(), "invariant:gate-is-open", "the pop of the lazy-operand gate: AR6 shows that every close follows an open of the same production, and only reduce actions call it (AR), so the slice is non-empty")
+				continue
+			}
 			if inv := lookupInvariant(c, f, s); inv != nil {
 				if inv.Producer != "" {
 					rr.OK(f, key, s.node.Pos(), "invariant:"+inv.Name, inv.Reason)
